@@ -60,7 +60,7 @@ impl Property for C09 {
         "C09"
     }
     fn rule(&self) -> String {
-        "Cases: ordered pairs (a,b) of operands of any two zoo types/lengths/provenances, with b related to a (independent, equal value at another length, a+-1, 2^m-a, exactly one bit flipped), and lists of same-type vectors to be sorted. Checked: ==,!=,<,<=,>,>=,partial_cmp in BOTH operand orders for the type pairing, Ord::cmp for same-type pairs, reflexivity of each operand, mutual consistency; sort() output non-decreasing by value and a permutation of the input. Enumerated: all (n,a,m,b) n,m<=4 (quick)/<=7 (thorough) x 20x20 pairings. Oracle: numeric comparison of the zero-extended bit lists. Non-trivial: lengths differ, or values unequal but identical in their most significant non-zero storage word of the wider word type (decision falls to a lower word); equal values of different length are a counted class. Distinct by hash of the case.".into()
+        "Cases: ordered pairs (a,b) of operands of any two zoo types/lengths/provenances, with b related to a (independent, equal value at another length, a+-1, 2^m-a, exactly one bit flipped), and lists of same-type vectors to be sorted. Checked: ==,!=,<,<=,>,>=,partial_cmp in BOTH operand orders for the type pairing, Ord::cmp for same-type pairs, reflexivity of each operand, mutual consistency; sort() output non-decreasing by value and a permutation of the input. Enumerated: all (n,a,m,b) n,m<=4 (quick)/<=7 (thorough) x 20x20 pairings; long vectors: every length 321..2600 (thorough 8300), 1023..4097 bits on ten pairings, the 70 400-bit fixed type in seven pairings at 7 lengths, and a geometric ladder of lengths around every power of two from 2^14 to 2^21 (thorough 2^24) bits on Bvd/Bv (equal, one bit different at the bottom/middle/top, shorter operands). Oracle: numeric comparison of the zero-extended bit lists. Non-trivial: lengths differ, or values unequal but identical in their most significant non-zero storage word of the wider word type (decision falls to a lower word); equal values of different length are a counted class. Distinct by hash of the case.".into()
     }
     fn random_cases(&self, tier: Tier) -> u64 {
         tier.pick(300000, 9600000)
@@ -99,8 +99,8 @@ impl Property for C09 {
     }
     fn enumerate(&self, tier: Tier, sh: &mut Shard, f: &mut dyn FnMut(C09Case) -> bool) {
         let k = tier.pick(4, 7);
-        for lt in 0..NT {
-            for rt in 0..NT {
+        for lt in ROUTINE_TIDS {
+            for rt in ROUTINE_TIDS {
                 for n in 0..=k {
                     if !sh.mine() {
                         continue;
@@ -138,7 +138,7 @@ impl Property for C09 {
                                 top.0[m - 1] = !top.0[m - 1];
                                 variants.push(top);
                                 for b in variants {
-                                    let c = C09Case::Pair { a: Operand { ty: lt, bits: a.clone(), prov: pa.clone() }, b: Operand { ty: rt, bits: b, prov: pb.clone() } };
+                                    let c = C09Case::Pair { a: Operand::fitted(lt, a.clone(), pa.clone()), b: Operand::fitted(rt, b, pb.clone()) };
                                     if !f(c) {
                                         return;
                                     }
@@ -209,9 +209,44 @@ impl Property for C09 {
                 }
             }
         }
+        // the 70 400-bit fixed type against itself and the unbounded types, and a geometric ladder
+        // of lengths up to megabits on the unbounded types: equal values, a difference in the
+        // lowest / a middle / the top bit, a shorter and a much shorter operand
+        let mut long: Vec<(Tid, Tid, usize)> = vec![];
+        for (lt, rt) in HUGE_PAIRS {
+            for n in HUGE_TYPE_LENS {
+                long.push((lt, rt, n.min(fixed_cap(lt).unwrap_or(usize::MAX))));
+            }
+        }
+        for (t, n) in ladder_lengths(tier) {
+            long.push((t, if n % 2 == 0 { TID_D } else { TID_A }, n));
+        }
+        for (lt, rt, n) in long {
+            if !sh.mine() {
+                continue;
+            }
+            let rc = fixed_cap(rt).unwrap_or(usize::MAX);
+            let mut a = dense_value(n);
+            a.0[n - 1] = true;
+            for m in [n, n - 1, n.saturating_sub(67), 4100usize, 5] {
+                let m = m.min(rc).min(n).max(1);
+                let base = a.zext(m);
+                let mut vs = vec![base.clone()];
+                for i in [0usize, m / 2, m - 1] {
+                    let mut x = base.clone();
+                    x.0[i] = !x.0[i];
+                    vs.push(x);
+                }
+                for b in vs {
+                    if !f(C09Case::Pair { a: Operand::canon(lt, a.clone()), b: Operand::canon(rt, b) }) {
+                        return;
+                    }
+                }
+            }
+        }
         // word-boundary lattice: values that agree in the top word and differ below, for every pairing
-        for lt in 0..NT {
-            for rt in 0..NT {
+        for lt in ROUTINE_TIDS {
+            for rt in ROUTINE_TIDS {
                 if !sh.mine() {
                     continue;
                 }
